@@ -45,11 +45,23 @@ def import_repo():
     """Import the repository package from REPO_ROOT and make sure that is what we got."""
     install_shims()
     import logging
+    import warnings
+    warnings.filterwarnings("ignore")   # numerical RuntimeWarnings of the library are not verdicts
     logging.disable(logging.CRITICAL)     # the library logs through module loggers only
     import PyMatterSim
     got = os.path.dirname(os.path.dirname(os.path.abspath(PyMatterSim.__file__)))
     if os.path.realpath(got) != os.path.realpath(REPO_ROOT):
         raise RuntimeError(f"HARNESS-ERROR imported PyMatterSim from {got}, wanted {REPO_ROOT}")
+    # import every module of the package now (module-level code only, nothing is called), so
+    # that run children forked from this process do not each pay for the imports
+    import importlib
+    import pkgutil
+    for m in pkgutil.walk_packages(PyMatterSim.__path__, "PyMatterSim."):
+        if not m.ispkg:
+            try:
+                importlib.import_module(m.name)
+            except Exception:  # noqa: BLE001 - reported by the worlds that need the module
+                pass
     try:
         import freud
         freud.parallel.set_num_threads(1)
